@@ -32,19 +32,33 @@ Definition t1 (z : Z) : cexpr := CCall PTrace [CConst (KInt z)].
 
 (** (let* [a 1 f (fn* [x] (vector a x (t 5)))] (vector (f 2) (f (t 3)))) *)
 Definition adder : cexpr :=
-  CLet 0 (CConst (KInt 1)) (CLet 1 (CFn [2] (CCall PVec [CLocal 0; CLocal 2; t1 5]))
+  CLet 0 (CConst (KInt 1)) (CLet 1 (CFn None [2] (CCall PVec [CLocal 0; CLocal 2; t1 5]))
     (CCall PVec [CInvoke (CLocal 1) [CConst (KInt 2)]; CInvoke (CLocal 1) [t1 3]])).
 
 (** (let* [mk (fn* [n] (fn* [] n)) a (mk 1) b (mk 2)] (vector (a) (b))): each closure keeps its own n *)
 Definition counters : cexpr :=
-  CLet 0 (CFn [1] (CFn [] (CLocal 1)))
+  CLet 0 (CFn None [1] (CFn None [] (CLocal 1)))
     (CLet 2 (CInvoke (CLocal 0) [CConst (KInt 1)]) (CLet 3 (CInvoke (CLocal 0) [CConst (KInt 2)])
        (CCall PVec [CInvoke (CLocal 2) []; CInvoke (CLocal 3) []]))).
 
 (** (let* [a 1 f (fn* [] a) a 2] (vector (f) a)): a later binding of the same name does not reach the closure *)
 Definition rebind : cexpr :=
-  CLet 0 (CConst (KInt 1)) (CLet 1 (CFn [] (CLocal 0)) (CLet 0 (CConst (KInt 2))
+  CLet 0 (CConst (KInt 1)) (CLet 1 (CFn None [] (CLocal 0)) (CLet 0 (CConst (KInt 2))
     (CCall PVec [CInvoke (CLocal 1) []; CLocal 0]))).
+
+(** a named fn* calling itself: ((fn* go [n acc] (if (< n 3) (go (inc n) (conj acc (t n))) acc)) 0 []) *)
+Definition recursive : cexpr :=
+  CInvoke (CFn (Some 0) [1; 2]
+             (CIf (CCall PLt [CLocal 1; CConst (KInt 3)])
+                  (CInvoke (CLocal 0) [CCall PInc [CLocal 1]; CCall PConj [CLocal 2; CCall PTrace [CLocal 1]]])
+                  (CLocal 2)))
+          [CConst (KInt 0); CConst (KVec [])].
+
+Example recursive_ok :
+  hazard_free recursive = true /\
+  ceval_obs 60 recursive = Some (OVec [OInt 0; OInt 1; OInt 2], [OInt 0; OInt 1; OInt 2]) /\
+  crun 60 recursive = ceval_obs 60 recursive.
+Proof. repeat split; vm_compute; reflexivity. Qed.
 
 Example adder_ok :
   hazard_free adder = true /\
